@@ -785,6 +785,9 @@ func replayC15(w *World, ob *Obligation, vc *VC) (bool, string) {
 	if strings.Contains(ob.Name, ").makeRequest#assert@call_") {
 		return replayC15AuthLoop(w, strings.Contains(ob.Name, "basicUploadAdapter"))
 	}
+	if strings.Contains(ob.Name, "retryCounter).ReadyTime#") {
+		return replayC15ReadyTime(w)
+	}
 	if !strings.Contains(ob.Name, "newConcreteManifest#post") {
 		return false, "no replay template for this obligation\n"
 	}
@@ -1172,6 +1175,44 @@ func TestVerifReplayC15AuthLoop(t *testing.T) {
 }
 `
 	out, passed, err := runOverlayTest(w.repoDir, "tq", "zz_verif_replay_test.go", test, "TestVerifReplayC15AuthLoop")
+	if err != nil {
+		return false, "replay could not run: " + err.Error() + "\n"
+	}
+	return !passed && strings.Contains(out, "REPRODUCED"), trimOut(out)
+}
+
+// replayC15ReadyTime runs the real back-off calculation over the boundary
+// values of lfs.transfer.maxretrydelay and every retry count up to 70 (the
+// shift wraps at 64) and reports a wait that is longer than the configured
+// maximum or lies in the past.
+func replayC15ReadyTime(w *World) (bool, string) {
+	test := `package tq
+
+import (
+	"testing"
+	"time"
+)
+
+func TestVerifReplayC15ReadyTime(t *testing.T) {
+	for _, max := range []int{0, 1, 2, 3, 10, 60, 3600} {
+		for count := 1; count <= 70; count++ {
+			r := newRetryCounter()
+			r.MaxRetryDelay = max
+			for i := 0; i < count; i++ {
+				r.Increment("oid")
+			}
+			before := time.Now()
+			ready := r.ReadyTime("oid")
+			wait := ready.Sub(before)
+			limit := time.Duration(max)*time.Second + 50*time.Millisecond
+			if wait > limit || wait < -50*time.Millisecond {
+				t.Fatalf("REPRODUCED: lfs.transfer.maxretrydelay=%d, retry %d of an object: ReadyTime asks to wait %v, the configured maximum is %ds", max, count, wait, max)
+			}
+		}
+	}
+}
+`
+	out, passed, err := runOverlayTest(w.repoDir, "tq", "zz_verif_replay_test.go", test, "TestVerifReplayC15ReadyTime")
 	if err != nil {
 		return false, "replay could not run: " + err.Error() + "\n"
 	}
